@@ -66,6 +66,10 @@ func (p *FloatingIPPlugin) allocateInSubnetWithKey(oldK, newK, subnet string, at
 	if err != nil {
 		return err
 	}
+	if fip == nil {
+		// preempt doesn't hold the pod lock, the ip may have been released or reserved again by an unbind of this pod
+		return fmt.Errorf("ip allocated to %s from %s during %s is gone", newK, oldK, when)
+	}
 	glog.Infof("allocated ip %s to %s from %s during %s", fip.IPInfo.IP.String(), newK, oldK, when)
 	return nil
 }
